@@ -125,6 +125,13 @@ def vmap_1d(
             f"Same argument provided more than once in variables: {duplicates}",
         )
 
+    # jax.vmap cannot deal with keyword-only arguments
+    if any(
+        p.kind == inspect.Parameter.KEYWORD_ONLY
+        for p in inspect.signature(func).parameters.values()
+    ):
+        func = allow_args(func)
+
     signature = inspect.signature(func)
     parameters = list(signature.parameters)
 
